@@ -199,6 +199,8 @@ pub struct Outcome<N> {
     pub dim_mismatch: bool,
     /// collect_vec() on the remainder after the end (opts.collect_after): Some((items, is_err, derivative calls made))
     pub collect_after: Option<(usize, bool, u64)>,
+    /// Euler was given a minimum step as well (opts.euler_min): its step is then (dt_min+dt_max)/2
+    pub euler_min_applied: bool,
 }
 
 impl<N: Clone> Outcome<N> {
@@ -244,11 +246,13 @@ pub struct Opts {
     /// order in which the builder calls are made (a valid configuration must build to the same
     /// solver whatever the order): 0 = min, max, tol, t0, t1, ic, derivative; other values permute
     pub order: u8,
+    /// also call with_minimum_dt on Euler (its step is the mean of the two bounds, whatever the order of the calls)
+    pub euler_min: bool,
 }
 
 impl Default for Opts {
     fn default() -> Self {
-        Opts { budget: 5_000_000, fail_at: None, max_items: 200_000, extra_next: 0, collect_vec: false, mode: DimMode::Dynamic, collect_after: false, order: 0 }
+        Opts { budget: 5_000_000, fail_at: None, max_items: 200_000, extra_next: 0, collect_vec: false, mode: DimMode::Dynamic, collect_after: false, order: 0, euler_min: false }
     }
 }
 
@@ -295,7 +299,7 @@ where
     DefaultAllocator: Allocator<N, D>,
     S: IVPSolver<'a, D, Field = N, RealField = f64, UserData = (), Error = IVPError>,
 {
-    let mut out = Outcome { build_err: None, items: vec![], truncated: false, panic: None, budget_hit: false, calls: 0, extra_some: 0, extra_calls: 0, extra_items: vec![], dim_mismatch: false, collect_after: None };
+    let mut out = Outcome { build_err: None, items: vec![], truncated: false, panic: None, budget_hit: false, calls: 0, extra_some: 0, extra_calls: 0, extra_items: vec![], dim_mismatch: false, collect_after: None, euler_min_applied: solver == Solver::Euler && opts.euler_min };
     probe::begin(opts.budget);
     let res = probe::guard(|| -> Result<(Vec<Item<N>>, bool, usize, u64, bool, Vec<Item<N>>, Option<(usize, bool, u64)>), (String, String)> {
         let b = match opts.mode {
@@ -324,7 +328,7 @@ where
         let mut b = b;
         for c in orders[(opts.order % 6) as usize] {
             b = match c {
-                Call::Min if solver == Solver::Euler => b,
+                Call::Min if solver == Solver::Euler && !opts.euler_min => b,
                 Call::Tol if solver == Solver::Euler => b,
                 Call::Min => b.with_minimum_dt(cfg.dt_min).map_err(|e| ("with_minimum_dt".to_string(), format!("{:?}", e)))?,
                 Call::Max => b.with_maximum_dt(cfg.dt_max).map_err(|e| ("with_maximum_dt".to_string(), format!("{:?}", e)))?,
@@ -554,5 +558,6 @@ pub fn outcome_as_real(oc: &Outcome<C64>) -> Outcome<f64> {
         extra_items: vec![],
         dim_mismatch: oc.dim_mismatch,
         collect_after: None,
+        euler_min_applied: oc.euler_min_applied,
     }
 }
